@@ -181,3 +181,23 @@ func RunHarness(r *Replay, fn func()) (st *State, panicked interface{}) {
 	fn()
 	return st, nil
 }
+
+// Non-branching boolean connectives: natively plain Go, under the engine they
+// build one term instead of forking (harness predicates are written with them).
+func And(a, b bool) bool     { return a && b }
+func Or(a, b bool) bool      { return a || b }
+func Not(a bool) bool        { return !a }
+func Implies(a, b bool) bool { return !a || b }
+func Iff(a, b bool) bool     { return a == b }
+func Ite(c bool, a, b int64) int64 {
+	if c {
+		return a
+	}
+	return b
+}
+func IteTime(c bool, a, b time.Time) time.Time {
+	if c {
+		return a
+	}
+	return b
+}
